@@ -465,6 +465,12 @@ where
             res = txs_receiver.receive() => res,
         };
         let tx = res.expect("receiving tx");
+        // NOTE: nothing enforces the size limit on the wire,
+        // an oversized transaction would overflow the space reserved for the slice
+        if tx.0.len() > MAX_TRANSACTION_SIZE {
+            warn!("dropping transaction of {} bytes exceeding the size limit", tx.0.len());
+            continue;
+        }
         tx_count += 1;
         wincode::serialize_into(&mut buffer, &tx)
             .expect("serializing transaction into buffer should not fail");
